@@ -5,7 +5,8 @@ CONSTANTS
   ML = 0
   MaxRetries = 1
   Repaired = TRUE
-  FinishReturnsHeld = FALSE
+  Prefetch = 0
+  FinishMode = "taken"
 INVARIANT Conservation
 INVARIANT RunningBound
 INVARIANT StartedBound
